@@ -37,6 +37,9 @@
 (*  view (so every deterministic observable is equal in both runs), and    *)
 (*  searches whose candidates are all the tenant's own un-drained recent   *)
 (*  writes in both runs give the same distances and total_found.           *)
+(* Ids with the high word set (r.hi / item.hi # 0: (k << 32) | local id)   *)
+(*  are outside the tenant-local range: the request - or the stream item - *)
+(*  is refused, nothing is returned and nothing changes for anybody.       *)
 (* Completeness of search (as many own documents as the tenant's history   *)
 (*  explains) is claimed only for un-drained recent writes and only when   *)
 (*  no filter / namespace is given or k >= the tenant's live documents.    *)
@@ -83,10 +86,12 @@ RECURSIVE InsertFrom(_, _, _, _)
 InsertFrom(x, r, j, ok) ==
   IF j > Len(r.items) THEN [x |-> x, ok |-> ok]
   ELSE LET it == r.items[j] IN
-       IF Admitted(x, it.id) THEN InsertFrom(PutDoc(x, it.id, it.v, it.m, r.ns, TRUE), r, j + 1, ok + 1)
+       IF it.hi # 0 THEN InsertFrom(x, r, j + 1, ok)
+       ELSE IF Admitted(x, it.id) THEN InsertFrom(PutDoc(x, it.id, it.v, it.m, r.ns, TRUE), r, j + 1, ok + 1)
        ELSE InsertFrom(x, r, j + 1, ok)
 RECURSIVE LoadFrom(_, _, _)
 LoadFrom(x, r, j) == IF j > Len(r.items) THEN x
+                     ELSE IF r.items[j].hi # 0 THEN LoadFrom(x, r, j + 1)
                      ELSE LoadFrom(PutDoc(x, r.items[j].id, r.items[j].v, r.items[j].m, r.ns, FALSE), r, j + 1)
 
 (**************************** answers: documents ***************************)
@@ -98,15 +103,17 @@ NoReserved(o) == \A j \in DOMAIN o.docs : o.docs[j].rk = 0
 Exp(st, n, tf, ids, x) == [st |-> st, n |-> n, tf |-> tf, ids |-> ids, x |-> x]
 
 Expect(x, r) ==
-  CASE r.rpc = "insert" ->
+  CASE r.hi # 0 /\ r.rpc \in {"insert", "umeta", "delete", "bdelete", "query", "bquery"} -> Exp("REFUSED", 0, -1, <<>>, x)
+    [] r.rpc = "insert" ->
          IF Admitted(x, r.id) THEN Exp("OK", 1, -1, <<>>, PutDoc(x, r.id, r.v, r.m, r.ns, TRUE))
          ELSE Exp("RESOURCE_EXHAUSTED", 0, -1, <<>>, x)
     [] r.rpc = "binsert" ->
          LET z == InsertFrom(x, r, 1, 0) IN Exp("OK", z.ok, Len(r.items) - z.ok, <<>>, z.x)
     [] r.rpc = "bload" ->
-         LET new == { r.items[j].id : j \in DOMAIN r.items } \ Live(x.kv) IN
+         LET taken == { j \in DOMAIN r.items : r.items[j].hi = 0 }
+             new == { r.items[j].id : j \in taken } \ Live(x.kv) IN
          IF Card(Live(x.kv)) + Card(new) > limit THEN Exp("RESOURCE_EXHAUSTED", 0, -1, <<>>, x)
-         ELSE Exp("OK", Len(r.items), 0, <<>>, LoadFrom(x, r, 1))
+         ELSE Exp("OK", Card(taken), Len(r.items) - Card(taken), <<>>, LoadFrom(x, r, 1))
     [] r.rpc = "umeta" ->
          IF Vis(x.kv, x.ns, r.id, r.ns)
          THEN Exp("OK", 1, -1, <<>>, St(Apply(x.kv, [t |-> "umeta", id |-> r.id, m |-> Meta(r.m), merge |-> r.merge]), x.ns, x.hf, x.hs))
@@ -126,13 +133,15 @@ Expect(x, r) ==
     [] OTHER -> Exp("?", 0, -1, <<>>, x)
 
 \* reasons why observation o is not the expected answer e (pre-state view x)
+StOk(o, e) == IF e.st = "REFUSED" THEN o.st \notin {"OK", "HTTP_200"} ELSE o.st = e.st
 PointWhy(o, e, x) ==
-     (IF o.st = e.st THEN {} ELSE {"status not explained by the tenant's own history"})
-  \cup (IF o.st # e.st \/ e.n = -1 \/ o.n = e.n THEN {} ELSE {"flag or count not explained by the tenant's own history"})
-  \cup (IF o.st # e.st \/ e.tf = -1 \/ o.tf = e.tf THEN {} ELSE {"flag or count not explained by the tenant's own history"})
+     (IF StOk(o, e) THEN {} ELSE IF e.st = "REFUSED" THEN {"id outside the tenant-local range was not refused"}
+                              ELSE {"status not explained by the tenant's own history"})
+  \cup (IF ~StOk(o, e) \/ e.n = -1 \/ o.n = e.n THEN {} ELSE {"flag or count not explained by the tenant's own history"})
+  \cup (IF ~StOk(o, e) \/ e.tf = -1 \/ o.tf = e.tf THEN {} ELSE {"flag or count not explained by the tenant's own history"})
   \cup (IF o.bad = 0 THEN {} ELSE {"foreign or malformed data in the answer"})
   \cup (IF NoReserved(o) THEN {} ELSE {"reserved key visible"})
-  \cup (IF o.st # e.st \/ (Len(o.docs) = Len(e.ids) /\ \A j \in DOMAIN o.docs : DocIs(o.docs[j], x, e.ids[j])) THEN {}
+  \cup (IF ~StOk(o, e) \/ (Len(o.docs) = Len(e.ids) /\ \A j \in DOMAIN o.docs : DocIs(o.docs[j], x, e.ids[j])) THEN {}
         ELSE {"returned documents are not the tenant's own"})
 
 (******************************** search ***********************************)
